@@ -305,9 +305,11 @@ func (e *Engine) run(s *state) []*state {
 				if pol {
 					tgt = tB
 				}
-				if deterministic {
+				if deterministic && comparesInduction(v.Cond) {
 					// the other branch is statically dead: an iteration decided by constants (a loop over a literal
-					// table) does not count against the unrolling bound
+					// table: the test compares the loop's induction variable) does not count against the unrolling
+					// bound. Other constant tests (the dispatch on a select's case index) say nothing about the number
+					// of iterations and stay bounded.
 					nfr.visits[-5000-tgt.Index]++
 					if nfr.visits[-5000-tgt.Index] < 256 {
 						nfr.visits[tgt.Index]--
@@ -501,6 +503,19 @@ func (e *Engine) run(s *state) []*state {
 					}
 				}
 			}
+			if mv != nil && mv.Kind == "closure" {
+				// a function value: what its captured cells hold as of the update
+				for _, b := range mv.Args {
+					if b != nil && b.Kind == "alloc" {
+						if cv, ok := s.mem[b.key]; ok {
+							if mev.Binds == nil {
+								mev.Binds = map[string]*Term{}
+							}
+							mev.Binds[b.key] = cv
+						}
+					}
+				}
+			}
 			s.emit(mev)
 			fr.idx++
 			continue
@@ -530,6 +545,30 @@ func isLocalAddr(a *Term) bool {
 		return isLocalAddr(a.Args[0])
 	}
 	return false
+}
+
+// comparesInduction: the condition compares a loop-carried value (a phi) with something.
+func comparesInduction(c ssa.Value) bool {
+	b, ok := c.(*ssa.BinOp)
+	if !ok {
+		return false
+	}
+	isPhi := func(v ssa.Value) bool {
+		for i := 0; i < 3; i++ {
+			switch x := v.(type) {
+			case *ssa.Phi:
+				return true
+			case *ssa.Convert:
+				v = x.X
+			case *ssa.ChangeType:
+				v = x.X
+			default:
+				return false
+			}
+		}
+		return false
+	}
+	return isPhi(b.X) || isPhi(b.Y)
 }
 
 // enter moves the frame to block b, enforcing the loop bound.
